@@ -6,7 +6,17 @@ from common import REPO, hx  # noqa: F401
 
 
 def rand_bytes(rng, n, style=None):
-    style = style or rng.choice(['uniform', 'uniform', 'ff', 'zero', 'bits', 'ramp'])
+    style = style or rng.choice(['uniform', 'uniform', 'ff', 'zero', 'bits', 'ramp', 'const', 'rows'])
+    if style == 'const':
+        # one byte value throughout, its two nibbles different (a two-colour stripe pattern in gfx terms)
+        hi, lo = rng.sample(range(16), 2)
+        return bytes([hi << 4 | lo]) * n
+    if style == 'rows':
+        # 64-byte rows, each made of one repeated byte (most of them with different nibbles), some rows random
+        out = bytearray()
+        while len(out) < n:
+            out += bytes([rng.randrange(256)]) * 64 if rng.random() < 0.8 else bytes(rng.getrandbits(8) for _ in range(64))
+        return bytes(out[:n])
     if style == 'uniform':
         return bytes(rng.getrandbits(8) for _ in range(n))
     if style == 'ff':
